@@ -29,6 +29,13 @@ pub fn thread_init() {
     futures_util::__verif_set_gen_index_hook(Some(Box::new(world::select_hook)));
     saa::verif_set_would_block_hook(Some(would_block));
     scc::verif_hash::set_key(Some(0));
+    // auto-assigned peer identities (UUIDv4) come from a per-execution counter
+    uuid::__verif_set_u128_source(Some(Box::new(|| {
+        let n = zvcore::world::next_auto_id();
+        // spread the counter over all 16 bytes; the value only needs to be unique and reproducible
+        let x = (n as u128 + 1).wrapping_mul(0x9E37_79B9_7F4A_7C15_F39C_C060_5CED_C835);
+        x ^ (x >> 61)
+    })));
     // library `spawn` needs a tokio context; the runtime is only entered, never driven
     let rt = tokio::runtime::Builder::new_current_thread()
         .build()
